@@ -734,6 +734,11 @@ func (runInfo *runInfoStruct) invokeMakeExpr(expr *ast.MakeExpr) {
 			runInfo.rv = nilValue
 			return
 		}
+		runInfo.rv = nilValue
+		if !runInfo.options.Debug {
+			// captures the panic of a size the runtime refuses
+			defer recoverFunc(runInfo)
+		}
 		runInfo.rv = reflect.MakeSlice(t, aLen, cap)
 		return
 	case ast.TypeChan:
@@ -750,6 +755,11 @@ func (runInfo *runInfoStruct) invokeMakeExpr(expr *ast.MakeExpr) {
 			runInfo.err = newStringError(expr, "make chan buffer size must not be negative")
 			runInfo.rv = nilValue
 			return
+		}
+		runInfo.rv = nilValue
+		if !runInfo.options.Debug {
+			// captures the panic of a size the runtime refuses
+			defer recoverFunc(runInfo)
 		}
 		runInfo.rv = reflect.MakeChan(t, aLen)
 		return
